@@ -204,6 +204,9 @@ func (c16) Run(t *testing.T, scenario any, job *Job, res *Result) {
 		res.AddSession(s)
 		steps = s.Stats.Steps
 		if !sessionSucceeded(res, s, "") {
+			if res.Violation == nil {
+				return // inconclusive (harness trouble)
+			}
 			setTape(&sc.Tr, s)
 			return
 		}
